@@ -41,7 +41,8 @@ CHECKS = {
         "flattening as one Descend action per hierarchy level and TLC checks group laws, mirror parity and composed=sequential "
         "on every chain of depth <=4 (quick: depth 4 sampled); every emitted chain is evaluated in the real code through "
         "from_instance cascades, elementary transform cascades and Layout::flatten of a nested library, on 49 grid points. "
-        "Rational (Pythagorean) rotations cover general angles with the half-unit tolerance.",
+        "Rational (Pythagorean) rotations cover general angles with the half-unit tolerance. Apalache shows composition, closure "
+        "and isometry of two placements for ALL integer offsets and points (D4Ind.tla).",
    note="Trusted: TLC, the harness's nested-library builder and its 2x2 integer map application. General angles only for "
         "rational sine/cosine.",
    tech="TLA+ placement algebra + flatten state machine, TLC exhaustive; S->I replay"),
